@@ -27,16 +27,17 @@ NWORKERS = int(os.environ.get("VERIF_WORKERS", "16"))
 BUDGET = {
     "C01": {"quick": {"malloc": 120000, "heap": 40000, "noinfo": 40000, "dtostre": 40000},
             "thorough": {"malloc": 6000000, "heap": 2000000, "noinfo": 2000000, "dtostre": 2000000}},
-    "C02": {"quick": {"malloc": 150000}, "thorough": {"malloc": 12000000}},
-    "C05": {"quick": {"malloc": 150000}, "thorough": {"malloc": 30000000}},
+    "C02": {"quick": {"malloc": 300000}, "thorough": {"malloc": 12000000}},
+    "C05": {"quick": {"malloc": 400000}, "thorough": {"malloc": 30000000}},
     "C06": {"quick": {"malloc": 150000, "user": 50000}, "thorough": {"malloc": 24000000, "user": 6000000}},
     "C08": {"quick": {"malloc": 100000}, "thorough": {"malloc": 4000000}},
-    "C09": {"quick": {"malloc": 100000}, "thorough": {"malloc": 12000000}},
+    "C09": {"quick": {"malloc": 250000}, "thorough": {"malloc": 12000000}},
     "C10": {"quick": {"malloc": 120000, "noinfo": 60000}, "thorough": {"malloc": 4000000, "noinfo": 2000000}},
-    "C11": {"quick": {"malloc": 160000, "user": 60000}, "thorough": {"malloc": 14000000, "user": 4000000}},
-    "C12": {"quick": {"malloc": 160000, "user": 60000}, "thorough": {"malloc": 7000000, "user": 2000000}},
-    "C17": {"quick": {"malloc": 100000}, "thorough": {"malloc": 8000000}},
-    "C18": {"quick": {"malloc": 100000, "heap": 100000, "user": 40000}, "thorough": {"malloc": 3000000, "heap": 3000000, "user": 1000000}},
+    "C11": {"quick": {"malloc": 240000, "user": 80000}, "thorough": {"malloc": 14000000, "user": 4000000}},
+    "C12": {"quick": {"malloc": 240000, "user": 80000}, "thorough": {"malloc": 7000000, "user": 2000000}},
+    "C17": {"quick": {"malloc": 200000}, "thorough": {"malloc": 8000000}},
+    "C18": {"quick": {"malloc": 100000, "heap": 100000, "user": 40000, "noinfouser": 30000},
+            "thorough": {"malloc": 3000000, "heap": 3000000, "user": 1000000, "noinfouser": 600000}},
     "C20": {"quick": {"heap": 200000}, "thorough": {"heap": 6000000}},
 }
 TIME_CAP = {"quick": 60, "thorough": 1500}     # seconds per worker batch; only guards against a slow machine
